@@ -10,6 +10,7 @@ import (
 
 	"github.com/tetratelabs/wazero/api"
 	experimentalsys "github.com/tetratelabs/wazero/experimental/sys"
+	internalsys "github.com/tetratelabs/wazero/internal/sys"
 	"github.com/tetratelabs/wazero/internal/sysfs"
 	"github.com/tetratelabs/wazero/sys"
 )
@@ -23,6 +24,12 @@ var (
 )
 
 func verif_eq[T any](a, b T) bool { return true }
+
+// fsConfigOK: a configured file system configuration is a well-formed *fsConfig of sane size.
+func fsConfigOK(c *moduleConfig) bool {
+	f, ok := c.fsConfig.(*fsConfig)
+	return !ok || (f != nil && fcInv(f) && len(f.fs) < 1<<20)
+}
 
 func isReadFSMount(f experimentalsys.FS) bool  { _, ok := f.(*sysfs.ReadFS); return ok }
 func isAdaptFSMount(f experimentalsys.FS) bool { _, ok := f.(*sysfs.AdaptFS); return ok }
@@ -238,6 +245,7 @@ func fcInv(c *fsConfig) bool {
 
 //@ func (c *fsConfig) preopens() ([]experimentalsys.FS, []string)
 //@   ensures[fresh] verif_fresh_slice(r0) && verif_fresh_slice(r1)
+//@   ensures[lens] len(r0) == len(c.fs) && len(r1) == len(c.guestPaths)
 //@   modifies nothing
 
 // Instantiating with a configuration does not change it: no store executed by InstantiateModule
@@ -286,3 +294,28 @@ func runtimeClosed(r *runtime) bool { return r.closed.Load() != 0 }
 //@   callees-preserve r.closed
 //@   nosafety
 //@   inline-depth 1
+
+// ======================= C18: the default configuration exposes nothing of the host =======================
+
+//@ prop C18
+//@ func NewModuleConfig() ModuleConfig
+//@   ensures[fresh] verif_fresh(r0.(*moduleConfig)) && verif_fresh_map(r0.(*moduleConfig).environKeys)
+//@   ensures[no-streams] r0.(*moduleConfig).stdin == nil && r0.(*moduleConfig).stdout == nil && r0.(*moduleConfig).stderr == nil
+//@   ensures[no-real-clocks-or-randomness] r0.(*moduleConfig).randSource == nil && r0.(*moduleConfig).walltime == nil && r0.(*moduleConfig).nanotime == nil && r0.(*moduleConfig).nanosleep == nil && r0.(*moduleConfig).osyield == nil
+//@   ensures[no-args-env-files-sockets] len(r0.(*moduleConfig).args) == 0 && len(r0.(*moduleConfig).environ) == 0 && r0.(*moduleConfig).fsConfig == nil && r0.(*moduleConfig).sockConfig == nil
+//@   modifies nothing
+
+// Building the system context reads the configuration (never writes it) and hands every unset
+// source to NewContext as nil, where the deterministic fakes are installed.
+//@ prop C18 C19
+//@ func (c *moduleConfig) toSysContext() (sysCtx *internalsys.Context, err error)
+//@   requires mcInv(c) && len(c.environ)&1 == 0 && fsConfigOK(c)
+//@   ensures[unset-clocks-are-fake] err == nil ==> (c.walltime != nil || internalsys.VerifFakeWalltime(sysCtx)) && (c.nanotime != nil || internalsys.VerifFakeNanotime(sysCtx)) && (c.nanosleep != nil || internalsys.VerifFakeSleep(sysCtx)) && (c.osyield != nil || internalsys.VerifFakeYield(sysCtx))
+//@   ensures[unset-random-is-fake] err == nil ==> (c.randSource != nil || internalsys.VerifFakeRand(sysCtx))
+//@   ensures[unset-stdio-is-empty] err == nil ==> internalsys.VerifStdioDefaults(sysCtx, c.stdin, c.stdout, c.stderr)
+//@   ensures[fresh-context] err == nil ==> verif_fresh(sysCtx)
+//@   modifies nothing
+//@   loop 0 (environ [][]byte, i int)
+//@     invariant verif_fresh_slice(environ) && 0 <= i && i&1 == 0 && len(c.environ)&1 == 0
+//@   loop 1 (key []byte, value []byte, keyLen int, valueLen int, result []byte, j int)
+//@     invariant 0 <= j && j <= keyLen && keyLen == len(key) && valueLen == len(value) && len(result) == keyLen+valueLen+1
